@@ -215,11 +215,15 @@ func pick2(i int, a, b []Str) []Str {
 	return b
 }
 
-func TestC01(t *testing.T) {
-	Prop[C01Case]{ID: "C01", Rule: c01Rule, Gen: c01Gen, Check: c01Check,
+func c01Prop() Prop[C01Case] {
+	return Prop[C01Case]{ID: "C01", Rule: c01Rule, Gen: c01Gen, Check: c01Check,
 		Assumptions: []string{"reference model `Denotes` is a faithful reading of the property statement",
-			"only well-formed serialised origins within the documented length limits are probed (malformed input belongs to C03)"}}.Run(t)
+			"only well-formed serialised origins within the documented length limits are probed (malformed input belongs to C03)"}}
 }
+
+func TestC01(t *testing.T) { c01Prop().Run(t) }
+
+func FuzzC01(f *testing.F) { FuzzProp(f, c01Prop()) }
 
 // ---------------------------------------------------------------------------
 // Exhaustive small-scope part (thorough tier): all ordered pairs and triples
